@@ -121,10 +121,17 @@ func cmdRand(o *Out, p *Package, j Job) {
 					slowestCall = d
 				}
 			case <-time.After(callBudget):
-				if slowestCall*200 < callBudget {
+				if j.Opts["recursive-types"] == "1" {
+					// the program has recursive types: their generators build ever growing values (wide
+					// before deep when the fan-out is large); same cause as the stack exhaustion
+					o.Violation(p.ID, "rand-unbounded-recursion", fmt.Sprintf("%s() has not returned after %s on a program with recursive types (call %d; slowest completed call %s)", name, callBudget, i, slowestCall))
+				} else if slowestCall*200 < callBudget {
 					o.Violation(p.ID, "rand-call-does-not-return", fmt.Sprintf("%s() has not returned after %s (call %d); the slowest of the %d calls completed before it in this process took %s: the function does not terminate", name, callBudget, i, completedCalls, slowestCall))
 				} else {
-					o.Emit(Event{Prog: p.ID, Kind: "inconclusive", Message: fmt.Sprintf("%s() exceeded the %s budget but completed calls were slow too (slowest %s)", name, callBudget, slowestCall)})
+					// undecided: the value is merely huge (maps of maps of structs, 40-49 entries per map);
+					// counted, the checker turns a large share of undecided functions into an inconclusive run
+					o.Count("rand-functions-undecided:slow-large-values", 1)
+					o.Emit(Event{Prog: p.ID, Kind: "note", Message: fmt.Sprintf("%s() exceeded the %s budget but completed calls were slow too (slowest %s): undecided", name, callBudget, slowestCall)})
 				}
 				o.Emit(Event{Prog: p.ID, Kind: "bail", Cmd: "rand", What: name})
 				os.Exit(0)
